@@ -17,7 +17,34 @@ def c06(tier):
                  "verif-tag bridge tests in cmd/go-critic and cmd/gocritic, analyzer.VerifFilter hook"])
 
 
-CHECKS = {"C06": c06}
+CRASH_TRUSTED = [
+    "goast2m converter (harness/internal/corpus/convert.go): decides which model term a real file becomes; cross-checked by wf evaluated on every converted file and by the warning-list comparison",
+    "go/parser, go/types (their facts are inputs of the model), go/scanner (independent token-start pass of the C07 oracle)",
+    "all checkers that are not modelled (the 40 rule-based ones, the ruleguard/gogrep engine, go/printer, astfmt, the remaining hand-written checkers) are observed by the implementation-level oracle only",
+]
+CRASH_ASSUME = [
+    "the theorems quantify over model files satisfying wf; wf is an executable predicate that is evaluated on every converted real file (S1 testdata, S2 stress packages, S3 mutants) in the same run",
+    "termination of the modelled checkers is Coq's structural-recursion guard; wall-clock bounds of the real code are only monitored (10 s watchdog per Check call)",
+    "one oracle run is shared by C01, C07 and C20 and cached per (tier, seed, harness binary, corpus) under work/crashrun",
+]
+
+
+def c01(tier):
+    vlib.standard("C01", tier, "c01", CRASH_COQ + ["Properties_C01.v"], assume=CRASH_ASSUME, trusted=CRASH_TRUSTED)
+
+
+def c07(tier):
+    vlib.standard("C07", tier, "c07", CRASH_COQ + ["Properties_C07.v"], assume=CRASH_ASSUME, trusted=CRASH_TRUSTED)
+
+
+def c20(tier):
+    vlib.standard("C20", tier, "c20", CRASH_COQ + ["Properties_C20.v"], assume=CRASH_ASSUME, trusted=CRASH_TRUSTED)
+
+
+CRASH_COQ = [f for f in ("Proofs_Checkers.v",) if __import__("os").path.exists(__import__("os").path.join(vlib.COQ, "theories", f))]
+CRASH_COQ_PROPS = {}
+
+CHECKS = {"C01": c01, "C06": c06, "C07": c07, "C20": c20}
 
 
 def run(prop, tier):
